@@ -902,6 +902,11 @@ func (s *scope) interpretSlice(obj pyObject, sl *Slice) pyObject {
 		// A slice is a new list; it must not share storage with the one it was taken from.
 		return slices.Clone(t[start:end])
 	case pyString:
+		if r := []rune(t); len(r) != len(t) {
+			// The bounds count characters, as len() and indexing do, not bytes.
+			end := s.interpretSliceExpression(obj, sl.End, newPyInt(len(r)))
+			return pyString(r[start:end])
+		}
 		end := s.interpretSliceExpression(obj, sl.End, newPyInt(len(t)))
 		return t[start:end]
 	}
